@@ -33,7 +33,18 @@ def canon_float(x) -> str:
     return show(Fraction(repr(round(float(x), 9))))
 
 
+NUMPY = {"on": False, "kind": "float64"}   # harness switch (`cfg np=1`): numbers reach the API as numpy scalars
+
+
 def parse_val(s: str):
+    v = _parse_val(s)
+    if NUMPY["on"] and isinstance(v, (int, float)) and abs(v) < 1e300:
+        import numpy as np
+        return np.float64(v)
+    return v
+
+
+def _parse_val(s: str):
     if s == "nan":
         return float("nan")
     if s == "inf":
@@ -145,6 +156,13 @@ class Impl:
                 if params.get("F") is not None and params.get("F") > mx:
                     params.update(F=mx)
                 return params
+        elif kind == "drop":
+            key = arg.upper()
+
+            def hook(origin, target, params, state):
+                log.append((origin, target))
+                # a NEW dictionary with fewer keys than the hook was given (hooks return the parameters to use)
+                return type(params)({k: v for k, v in params.items() if k.upper() != key})
         elif kind == "extrude":
             from gscrib.hooks import extrusion_hook
 
@@ -286,7 +304,8 @@ class Impl:
                 pass
             else:
                 k, v = a.split(":")
-                kw[k] = parse_val(v)
+                # parameter names are case-insensitive by contract (`ParamsDict`); `cfg lower=1` spells them in lower case
+                kw[k.lower() if getattr(self, "lower", False) else k] = parse_val(v)
                 self.letters.add(k.upper())
         return pt, kw
 
